@@ -169,8 +169,13 @@ class CLexer(HandLexerBase):
         """Generate tokens from characters"""
         space = ""
         first = True
-        token = None
+        last_token = None
         for token in super().tokenize(filename, chunks, self.lex_c):
+            if token.typ == "COMMENT":
+                space += " "
+                continue
+
+            last_token = token
             if token.typ == "BOL":
                 if first:
                     # Yield an extra start of line
@@ -187,9 +192,9 @@ class CLexer(HandLexerBase):
                 first = False
 
         # Emit last newline:
-        if first and token:
+        if first and last_token:
             # Yield an extra start of line
-            yield CToken("BOL", "", "", first, token.loc)
+            yield CToken("BOL", "", "", first, last_token.loc)
 
     def create_chunks(self, f):
         """Create a sequence of chunks.
@@ -423,8 +428,11 @@ class CLexer(HandLexerBase):
         while True:
             if self.accept("*"):
                 if self.accept("/"):
+                    # A comment is replaced by one space (C99 5.1.1.2)
+                    self.token_buffer.append(
+                        Token("COMMENT", " ", self._start_loc)
+                    )
                     self.ignore()
-                    # self.emit('WS')
                     break
             else:
                 self.next_char(eof=False)
